@@ -1,4 +1,5 @@
 """pyvc runner: function specs (sidecar contracts), verification of one function, result records."""
+import os
 import time
 import traceback
 import z3
@@ -23,7 +24,8 @@ class FunctionSpec:
 
     def __init__(self, prop, file, qualname, glob, setup, post, raises=None, invariants=None, comp_hooks=None,
                  local_stubs=None, loop_keep=None, variant=None, lemmas=None, decode=None, theory=None,
-                 super_=None, local_stub=None, ground=None, source_root=None, notes=None, fn_hook=None):
+                 super_=None, local_stub=None, ground=None, source_root=None, notes=None, fn_hook=None,
+                 interp=None, hints=None):
         self.prop, self.file, self.qualname = prop, file, qualname
         self.glob = glob
         self.setup, self.post, self.raises = setup, post, raises
@@ -40,6 +42,8 @@ class FunctionSpec:
         self.ground = ground
         self.notes = notes or []
         self.fn_hook = fn_hook
+        self.interp = interp
+        self.hints = hints
         self.reached = set()
 
     @property
@@ -160,11 +164,17 @@ def verify(spec):
             return ('return', None)
 
         c.explore(run)
+        if os.environ.get('PYVC_TRACE'):
+            print('   explored %s: %d paths, %d obligations, %.1fs' % (spec.label, c.paths, len(c.obligations),
+                                                                      time.time() - t0), flush=True)
         res.paths = c.paths
         res.outcomes = outcomes
         res.reached = sorted(spec.reached)
         for ob in c.obligations:
-            discharge(ob, lemmas, ground)
+            discharge(ob, lemmas, ground, interp=spec.interp, hints=spec.hints)
+            if os.environ.get('PYVC_TRACE'):
+                print('   [%s] %-8s %6.2fs path=%d %s %s' % (time.strftime('%H:%M:%S'), ob.status, ob.time, ob.path,
+                                                           ob.name.split('::')[-1], ob.note), flush=True)
             smt2 = None
             cex = None
             if ob.status != 'proved':
